@@ -93,10 +93,12 @@ let quiet32 (u : int) : int =
   if u land 0x7f800000 = 0x7f800000 && u land 0x007fffff <> 0 then u lor 0x00400000 else u
 
 (* canonical text of a model item: the syntax s2t.Show produces on the Go side *)
+let hextab = Array.init 256 (fun i -> Printf.sprintf "%02x" i)
+
 let rec show (b : Buffer.t) (x : item) : unit =
   if Buffer.length b > 0 then Buffer.add_char b ' ';
   let join f l = List.iteri (fun i v -> if i > 0 then Buffer.add_char b ','; Buffer.add_string b (f v)) l in
-  let hex l = List.iter (fun v -> Buffer.add_string b (Printf.sprintf "%02x" (int_of_z v))) l in
+  let hex l = List.iter (fun v -> Buffer.add_string b hextab.(int_of_z v)) l in
   match x with
   | IEmpty -> Buffer.add_string b "E"
   | IList cs -> Buffer.add_string b (Printf.sprintf "L%d" (List.length cs)); List.iter (show b) cs
@@ -119,7 +121,7 @@ let digest (s : string) : string =
 let hex_digest (l : z list) : string =
   if l = [] then "-" else begin
     let b = Buffer.create (2 * List.length l) in
-    List.iter (fun v -> Buffer.add_string b (Printf.sprintf "%02x" (int_of_z v))) l;
+    List.iter (fun v -> Buffer.add_string b hextab.(int_of_z v)) l;
     digest (Buffer.contents b)
   end
 
